@@ -2,7 +2,7 @@ CONSTANTS
  Confs <- MCConfs
  FixWaitErr = FALSE
  Reduce = TRUE
- MCShapes = {"img", "dup", "idx2", "docker", "empty"}
+ MCShapes = {"img", "dup"}
  MCPairs = {"tworeg", "samereg", "samerepo", "reg2dir", "dir2reg", "dir2dir"}
  MCOpts <- MCOptsDefault
  MCFeats <- MCFeatsMount
